@@ -233,7 +233,7 @@ func (s *Sink) WriteTo(buf []byte, addr netip.AddrPort) error {
 	ev := Event{T: vsched.Now(), Dir: "tx", Raw: raw, P: p, Sink: s.ID, Thread: vsched.CurrentThread(), Meta: Meta{ToTTL: -1, Flow: s.ID}}
 	n.Ledger = append(n.Ledger, ev)
 	n.Order = append(n.Order, OrderEv{"tx", s.ID, s.ID})
-	if err == nil && (p.Proto == refcodec.ProtoUDP || p.Proto == refcodec.ProtoTCP) && (s.Writes == 1 || s.Writes%16 == 0) && !n.NoPortCheck {
+	if err == nil && (p.Proto == refcodec.ProtoUDP || p.Proto == refcodec.ProtoTCP) && s.Writes == 1 && !n.NoPortCheck {
 		if !portHeld(p.Proto, p.SrcPort) && len(s.PortNotHeld) < 4 {
 			s.PortNotHeld = append(s.PortNotHeld, fmt.Sprintf("%d:%d", p.Proto, p.SrcPort))
 		}
